@@ -43,7 +43,9 @@ KIND = {'MPI_File_read_all': 'read_coll', 'MPI_File_read_at_all': 'read_coll',
         'MPI_File_write_all': 'write_coll', 'MPI_File_write_at_all': 'write_coll'}
 TGT = {'W': 'TComm', 'S': 'TSelf', 'FC': 'TFhColl', 'FS': 'TFhSelf'}
 GLOBAL_T = ('TComm', 'TFhColl')
-WATCHDOG = 3          # seconds of the harness' per-phase alarm
+WATCHDOG = 2          # seconds of the harness' per-phase alarm for scenarios the model predicts to block
+WATCHDOG_OK = 8       # ... for scenarios predicted to terminate (generous: the machine may be loaded)
+WATCHDOG_CONFIRM = 15 # ... when an unpredicted hang is re-run alone
 SET_VIEW3 = ('S_ncmpio_file_set_view_SV1', 'S_ncmpio_file_set_view_SV2', 'S_ncmpio_file_set_view_SV3')
 
 
@@ -205,7 +207,7 @@ def abs_req(c, rank, E):
         newrec = 2
     # contiguity of the file view: a slice of a 1-D fixed variable or of one record is contiguous;
     # the whole of a record variable (2 records) is not
-    contig = not (isrec and whole) and k not in ('n', 'd')     # varn / vard always build a derived filetype
+    contig = not (isrec and whole) and (k not in ('n', 'd') or (k == 'n' and v == 'S'))   # varn / vard build a derived filetype (varn on a scalar: put_var path)
     term = 'LReq (mkReq %s %s %s %s %s %s %s %s 1)' % (zc(err), b(sanity), VK[v], b(nonzero), zc(drv), b(contig), zc(newrec), b(num0))
     valid = (err == 0)
     lab = '%s:%s' % (VNAME[v], WNAME.get(w, w))
@@ -513,12 +515,12 @@ def parse_logs(d, np):
     return res
 
 
-def run_batch(exe, cases, np, wd, name, timeout):
+def run_batch(exe, cases, np, wd, name, timeout, watchdog=WATCHDOG):
     d = os.path.join(wd, name); os.makedirs(d, exist_ok=True)
     cf = os.path.join(d, 'cases.txt')
     open(cf, 'w').write('\n'.join(c.line() for c in cases) + '\n')
     env = {'OMPI_MCA_mpi_yield_when_idle': '1'}
-    rc, out = C.mpirun(np, exe, [d, cf, str(WATCHDOG)], env=env, timeout=timeout, cwd=d)
+    rc, out = C.mpirun(np, exe, [d, cf, str(watchdog)], env=env, timeout=timeout, cwd=d)
     obs = parse_logs(d, np)
     crash = None
     m = re.search(r'exited on signal (\d+)', out)
@@ -567,33 +569,47 @@ def norm_ops(ops):
 
 
 # =============================================================================== keys
+def varn_path(cls):
+    """dispatcher path of a varn class: 'scalar' (put_var/get_var) or 'varn' (igetput_varn + wait)"""
+    v, w = cls.split('.')
+    return 'scalar' if (v == 'S' and w != 'num0') else 'varn'
+
+
 def key_of(c, absl, what):
     """stable key of an oracle failure: API, kind of the variables the valid ranks address, kind of the invalid argument,
     configuration; independent of rank order, of the number of ranks and of which further classes are present"""
     isdata = c.api.startswith(('put_var', 'get_var', 'mput', 'mget'))
     api = c.api + ('_all' if isdata else '')
-    cfgs = ''.join([':safe-mode' if c.safe else '', ':romio_no_indep_rw' if c.hcoll else '', ':aggregation' if c.aggr else ''])
+    # the header-I/O mode only matters for the calls that write the header; aggregation changes no verdict
+    cfgs = ''.join([':safe-mode' if c.safe else '', ':romio_no_indep_rw' if (c.hcoll and not isdata and c.api not in ('wait_all', 'fill_var_rec')) else ''])
     valid = sorted(set(a.label for a in absl if a.valid))
     bad = sorted(set(a.label for a in absl if not a.valid))
+    tail = '' if what == 'hang' else ':' + what
+    if c.api in ('put_varn', 'get_varn') and len(set(varn_path(x) for x in c.cls)) > 1:
+        other = 'others-pass-zero-requests-for-the-same-variable' if all(x[0] == 'S' for x in c.cls) else 'others-address-a-non-scalar-variable'
+        return '%s:scalar-variable-on-some-ranks:%s%s%s' % (api, other, cfgs, tail)
     if c.api.startswith(('put_var', 'get_var')):
         vk = sorted(set(l.split(':')[0] for l in valid))
-        vq = sorted(set(l.split(':')[1] for l in valid if l.split(':')[1] in ('zero-requests',)))
         bw = sorted(set((l.split(':')[1] if l.split(':')[0] in ('fixed-var', 'record-var', 'scalar-var') else l.split(':')[0]) for l in bad))
         if len(vk) > 1:
             s = 'different-variable-kinds:' + '+'.join(vk)
         else:
             s = ('+'.join(vk) or 'no-valid-rank')
-            if vq:
-                s += ':' + vq[0] + '-on-one-rank'
             if bw:
                 s += ':' + bw[0] + '-on-one-rank'
-    else:
-        s = '+'.join(valid) or 'no-valid-rank'
+        return '%s:%s%s%s' % (api, s, cfgs, tail)
+    if c.api in META:
+        mode = {'': 'data-mode', 'indep': 'independent-data-mode'}.get(c.pre, 'define-mode')
+        b0 = ''
         if bad:
-            s += ':' + bad[0] + '-on-one-rank'
+            b0 = ('bad-varid' if 'N' in bad else 'invalid-argument') + '-on-one-rank:'
+        elif len(valid) > 1:
+            b0 = 'arguments-differ:'
+        return '%s:%s%s%s%s' % (api, b0, mode, cfgs, tail)
+    s = (bad[0] + '-on-one-rank') if bad else '+'.join(valid)
     if c.pre and c.pre not in ('data',):
         s += ':from-' + c.pre
-    return '%s:%s%s%s' % (api, s, cfgs, '' if what == 'hang' else ':' + what)
+    return '%s:%s%s%s' % (api, s, cfgs, tail)
 
 
 # =============================================================================== evaluation of one case
@@ -634,7 +650,7 @@ def evaluate(c, obs, model, E, sites, crash_sig):
             # no per-rank arguments: the outcome is a function of the shared state
             if len(set(rcs)) != 1:
                 orc.append(('codes-differ-without-arguments', 'return codes %s' % rcs))
-        elif c.safe and c.api != 'close_pend':
+        elif c.safe and c.api not in ('close_pend', 'wait_all'):
             if any(not a.valid for a in absl) or any(rc != 0 for rc in rcs):
                 if len(set(rcs)) != 1:
                     orc.append(('safe-mode-codes-differ', 'return codes %s' % rcs))
@@ -827,18 +843,35 @@ def execute(ctx, exe, lib, cases, E, wd, sites, budget_s):
         good = [c for c in cases if c.np == np and not predicted_bad(c)]
         for i in range(0, len(good), 120):
             batches.append(('b%d_%d' % (np, i), np, good[i:i + 120]))
-    singles = [c for c in cases if predicted_bad(c)]
-    jobs = [(n, np, cs, 40 + len(cs)) for n, np, cs in batches] + [('s' + c.id, c.np, [c], 14) for c in singles]
+    bad = [c for c in cases if predicted_bad(c)]
+    # a predicted mismatch costs one mpiexec + one watchdog period: replay per predicted key the smallest witnesses
+    per_key = 3 if ctx.tier == 'thorough' else 1
+    groups = {}
+    for c in bad:
+        k = key_of(c, [abstraction(c, r, E) for r in range(c.np)], 'hang')
+        groups.setdefault(k, []).append(c)
+    singles = []
+    for k in sorted(groups):
+        g = sorted(groups[k], key=lambda c: (c.np, len(set(c.cls)), c.text()))
+        take = g[:per_key]
+        if ctx.tier == 'thorough':
+            take = take + [c for c in g[per_key:] if c.np == 2][:6]
+        singles.extend(take)
+    skipped = set(c.id for c in bad) - set(c.id for c in singles)
+    ctx.cov.setdefault('distribution_exec', {}).update(predicted_mismatch=len(bad), predicted_mismatch_keys=len(groups),
+                                                      predicted_mismatch_replayed=len(singles))
+    jobs = [(n, np, cs, 60 + len(cs), WATCHDOG_OK) for n, np, cs in batches] + [('s' + c.id, c.np, [c], 14 + 3 * WATCHDOG, WATCHDOG) for c in singles]
     def runjob(j):
-        name, np, cs, to = j
-        return j, run_batch(exe, cs, np, wd, name, to)
+        name, np, cs, to, wdog = j
+        return j, run_batch(exe, cs, np, wd, name, to, wdog)
     pending = list(jobs)
     rounds = 0
+    retries = {}
     while pending and rounds < 60:
         rounds += 1
         nxt = []
         with ThreadPoolExecutor(max_workers=8) as ex:
-            for (name, np, cs, to), (rc, obs, crash, tail) in ex.map(runjob, pending):
+            for (name, np, cs, to, wdog), (rc, obs, crash, tail) in ex.map(runjob, pending):
                 # cases that completed (END on all ranks), the first incomplete one, the rest is re-run
                 done_upto = len(cs)
                 for i, c in enumerate(cs):
@@ -851,12 +884,38 @@ def execute(ctx, exe, lib, cases, E, wd, sites, budget_s):
                     results[c.id] = (obs[c.id], None)
                 if done_upto < len(cs):
                     c = cs[done_upto]
-                    results[c.id] = (obs.get(c.id, {}), crash)
+                    o = obs.get(c.id, {})
+                    infra = (len(o) < np) or any((x['hang'] or {}).get('phase') == 'setup' or (x['ret'] is None and x['hang'] is None and crash is None and not x['ops'])
+                                               for x in o.values())
                     rest = cs[done_upto + 1:]
+                    if infra and retries.get(c.id, 0) < 3:
+                        retries[c.id] = retries.get(c.id, 0) + 1
+                        rest = cs[done_upto:]
+                    else:
+                        results[c.id] = (o, crash)
                     if rest:
-                        nxt.append((name + 'r', np, rest, 40 + len(rest)))
+                        nxt.append((name + 'r', np, rest, 60 + len(rest), wdog))
         pending = nxt
+    # an unpredicted hang may be the watchdog firing on a loaded machine: re-run alone with a long watchdog
+    def incomplete(c):
+        o = results.get(c.id, ({}, None))[0]
+        return len(o) < c.np or any(not x['end'] for x in o.values())
+    suspects = [c for c in cases if c.id in results and incomplete(c) and not predicted_bad(c)]
+    confirmed = 0
+    for attempt in range(2):
+        if not suspects:
+            break
+        with ThreadPoolExecutor(max_workers=4) as ex:
+            outs = list(ex.map(lambda c: (c, run_batch(exe, [c], c.np, wd, 'c%d%s' % (attempt, c.id), 30 + 4 * WATCHDOG_CONFIRM, WATCHDOG_CONFIRM)), suspects))
+        nxt = []
+        for c, (rc, obs, crash, tail) in outs:
+            results[c.id] = (obs.get(c.id, {}), crash)
+            if incomplete(c):
+                nxt.append(c)
+        suspects = nxt
+    ctx.cov['distribution_exec']['unpredicted_hangs_confirmed_by_rerun'] = len(suspects)
     ctx.cov['timing']['impl_s'] = round(time.time() - t0, 1)
+    ctx.cov['distribution_exec']['infrastructure_retries'] = sum(retries.values())
     # layouts for the enddef-after-redef cases come from the implementation's own inquiries
     lay = [c for c in cases if needs_layout(c)]
     infos = {}
@@ -867,7 +926,8 @@ def execute(ctx, exe, lib, cases, E, wd, sites, budget_s):
     if lay:
         model.update(run_model(lay, E, wd, infos=infos, tag='mb'))
     ctx.cov['timing']['total_exec_s'] = round(time.time() - t0, 1)
-    return [(c, results.get(c.id, ({}, None))[0], model.get(c.id), results.get(c.id, ({}, None))[1]) for c in cases]
+    return [(c, results.get(c.id, ({}, None))[0], model.get(c.id), results.get(c.id, ({}, None))[1]) for c in cases if c.id not in skipped], \
+           [(c, model.get(c.id)) for c in cases if c.id in skipped]
 
 
 def run(ctx):
@@ -886,7 +946,9 @@ def run(ctx):
                       % pr['failed'][:6], dict(relation='proof', failed=pr['failed'][:20], log=pr['log'][-2500:],
                                               gen_changed=pr['gen_changed']), no_input=True)
     cases = gen_cases(ctx)
-    res = execute(ctx, exe, lib, cases, E, wd, sites, 0)
+    res, model_only = execute(ctx, exe, lib, cases, E, wd, sites, 0)
+    for c, m in model_only:
+        ctx.count(c.text(), nontrivial=False)        # evaluated on the model only (same predicted key as a replayed witness)
     report(ctx, res, E, sites)
 
 
@@ -921,12 +983,8 @@ def report(ctx, res, E, sites):
             cand = (c.np, len(set(c.cls)), c.text())
             if e['first'] is None or cand < e['first'][0]:
                 e['first'] = (cand, c, orc, model)
-        if cor and not orc or any(rel != 'corr_C08_hang' for rel, _ in cor) and orc and False:
+        if cor:
             cor_fail.append((c, cor))
-        elif cor and orc:
-            # the oracle failed AND the model disagrees with what happened: the model must still predict the failure
-            if any(rel in ('corr_C08_hang', 'corr_C08_trace', 'corr_C08_rc') for rel, _ in cor):
-                cor_fail.append((c, cor))
     dist['correspondence_failures'] = len(cor_fail)
     dist['violation_keys'] = len(by_key)
     ctx.cov['distribution'] = dist
@@ -957,7 +1015,7 @@ def replay(ctx, d):
     c = case_from_json(d['case']); c.id = 'replay'
     C.run_translators(lib, ('consts', 'collsites'))
     C.coq_make(['Collective.vo'])
-    res = execute(ctx, exe, lib, [c], E, wd, sites, 0)
+    res, _ = execute(ctx, exe, lib, [c], E, wd, sites, 0)
     for c, obs, model, crash in res:
         orc, cor, _ = evaluate(c, obs, model, E, sites, crash)
         print('case:', c.text())
